@@ -11,8 +11,16 @@ EXPECT = {
 
 def describe(db, fn):
     """(hasher names constructed, constant digest sub-ranges kept, update-arg trees)"""
-    T = exprtree.Trees(db, fn)
+    import common
     hashers, ranges = [], []
+    # the function and the closures written inside it are one source-level body
+    for body in common.bodies(db, fn):
+        _describe_body(db, body, hashers, ranges)
+    return hashers, ranges
+
+
+def _describe_body(db, fn, hashers, ranges):
+    T = exprtree.Trees(db, fn)
     for bi, t in fn.calls():
         f = t['f']
         if f.get('name') == 'new' and 'Digest' in (f.get('path') or ''):
@@ -44,7 +52,6 @@ def describe(db, fn):
                     ranges.append((s_, e_ + 1))
                 else:
                     ranges.append(None)     # a digest sub-range in a form this rule cannot evaluate
-    return hashers, ranges
 
 
 def check_site(ctx, rep, rule, fnpath, what):
